@@ -6,7 +6,7 @@ Number and text classes follow DESIGN.md 3.2.
 """
 import math
 
-NAME_POOL = ["words", "phones", "e\u0301", "\u212b", "t 1", 'q"uote', 'dq""uote', "a=b", "7", "é𝄞", "x" * 40, "Mary's", "tier[1]", "100%"]
+NAME_POOL = ["words", "phones", "e\u0301", "\u212b", "t 1", 'q"uote', 'dq""uote', "a=b", "7", "é𝄞", "x" * 40, "Mary's", "tier[1]", "100%", " lead", "trail ", "  both  "]
 LABEL_POOL = [
     "", "a", "hello world", "7", "3.14", "-0", "x = y", 'say "hi"', '""', '"', 'a""b', '"start', 'end"', '"both"', "line1\nline2", "a\n\nb",
     'q"\n"r', "é", "日本語", "𝄞 clef", "tab\tinside", "a!b", "! bang", "<exists>", "semi;colon", "back\\slash", "x" * 300, "a  b", "%d %s",
